@@ -759,6 +759,16 @@ def edge_constraints(fn, ctx, stack=()):
                 top, fop = fop, top
             out.setdefault((b, tt), []).extend(cmp_to_constraints(top, l, r))
             out.setdefault((b, ft), []).extend(cmp_to_constraints(fop, l, r))
+        elif e.k == "call" and e.a.name == "contains" and len(e.a.args) == 2 and "ops::Range" in e.a.path:
+            from .guards import range_bounds
+            rb = range_bounds(fn, call_arg_exprs(e.a)[0])
+            x = ctx.lin(call_arg_exprs(e.a)[1])
+            if rb is not None and x is not None and not neg_:
+                lo, hi = ctx.lin(rb[0]), ctx.lin(rb[1])
+                if lo is not None:
+                    out.setdefault((b, tt), []).append(ge(x, lo))
+                if hi is not None:
+                    out.setdefault((b, tt), []).append(ge(hi, x) if rb[2] else ge(hi, lin_add(x, lin_const(1))))
         elif e.k == "call" and e.a.name == "is_empty" and len(e.a.args) == 1:
             ll = ctx.len_of_operand(e.a.args[0])
             if ll is not None:
